@@ -388,6 +388,8 @@ def pdu_tie(run, model, exe):
         bad = None
         if b.startswith("CRASH"):
             bad = "PDU builder crashes under an allocation failure"
+        elif " HEAP " in b:
+            bad = "PDU builder leaks or corrupts the heap under an allocation failure"
         elif " atomic=0 " in b:
             bad = "a failing PDU operation changed the message"
         elif a != b:
